@@ -190,6 +190,7 @@ Definition quiescentb (s : state) : bool :=
   negb (search s) && negb (quitf s) &&
   match epc s with EIdle => true | _ => false end &&
   match pc (th s 0%nat) with PWait KTop | MRdQuit | MRdSearch => true | _ => false end &&
+  negb (self (th s 0%nat)) && (wc (th s 0%nat) =? 0) && (qa (th s 0%nat) =? -1) &&
   match qu s 0%nat with [] => true | _ => false end &&
   forallb (helper_quietb s) (seq 1 N).
 
